@@ -3,10 +3,13 @@ package main
 import (
 	_ "github.com/bufbuild/bufverif/checks/c02"
 	_ "github.com/bufbuild/bufverif/checks/c06"
+	_ "github.com/bufbuild/bufverif/checks/c07"
 	_ "github.com/bufbuild/bufverif/checks/c09"
 	_ "github.com/bufbuild/bufverif/checks/c12"
 	_ "github.com/bufbuild/bufverif/checks/c13"
 	_ "github.com/bufbuild/bufverif/checks/c14"
 	_ "github.com/bufbuild/bufverif/checks/c15"
+	_ "github.com/bufbuild/bufverif/checks/c18"
 	_ "github.com/bufbuild/bufverif/checks/c19"
+	_ "github.com/bufbuild/bufverif/checks/c20"
 )
